@@ -182,7 +182,7 @@ class BaseTemplate:
         if self.__dict__.get('debug') is True:
             self.loader = _make_module_loader()
 
-    def __call__(self, **kwargs: Any) -> str:
+    def __call__(self, /, **kwargs: Any) -> str:
         return self.render(**kwargs)
 
     def __repr__(self) -> str:
@@ -246,7 +246,7 @@ class BaseTemplate:
     def parse(self, body: str) -> Any:
         raise NotImplementedError("Must be implemented by subclass.")
 
-    def render(self, **__kw: Any) -> str:
+    def render(self, /, **__kw: Any) -> str:
         econtext = Scope(__kw)
         rcontext: dict[str, Any] = {}
         self.cook_check()
